@@ -32,8 +32,9 @@ class Gen:
     """Token-level program generator.  `toks` is a list of (text, kind) with kind in
     name / keyword / number / string / symbol / istr."""
 
-    def __init__(self, rng, luau=True, markers=None):
+    def __init__(self, rng, luau=True, markers=None, avoid_known=False):
         self.rng = rng
+        self.avoid_known = avoid_known
         self.luau = luau
         self.toks = []
         self.depth = 0
@@ -439,11 +440,15 @@ class Gen:
             self.t("return")
             if self.chance(3, 4):
                 self.exprlist(1, 3)
-            if self.chance(1, 6):
+            if self.chance(1, 6) and not self.avoid_known:
+                self.features.add("last-semicolon")
                 self.t(";")
         elif r == 1 and self.loop:
             self.features.add("break")
             self.t("break")
+            if self.chance(1, 6) and not self.avoid_known:
+                self.features.add("last-semicolon")
+                self.t(";")
         elif r == 2 and self.loop and self.luau:
             self.features.add("continue")
             self.t("continue", "name")
@@ -473,6 +478,16 @@ def fuses(a, b):
     return [t.text for t in toks] != [ta.encode("utf-8"), tb.encode("utf-8")]
 
 
+def breaks(a, b):
+    """should_break_with_space of darklua's generator (only used to steer the layout away from /
+    towards the recorded space-insertion classes)"""
+    if a.isdigit():
+        return (b.isalnum() and b.isascii()) or b in "_."
+    if (a.isalpha() and a.isascii()) or a == "_":
+        return (b.isalnum() and b.isascii()) or b == "_"
+    return {">": b == "=", "-": b == "-", "[": b == "[", "]": b == "]", ".": b == "." or b.isdigit()}.get(a, False)
+
+
 def long_comment(rng, text=None):
     level = rng.choice([0, 0, 1, 2])
     body = text if text is not None else rng.choice([" c ", "", " multi\nline ", "] ", " -- x ", " ]] ", " ]=] ",
@@ -495,8 +510,10 @@ class Layout:
          'plain'    one space between tokens, statements on lines
          'random'   every kind of trivia, everywhere"""
 
-    def __init__(self, rng, mode="random", newline="\n", comments=True, final_newline=None, density=3):
+    def __init__(self, rng, mode="random", newline="\n", comments=True, final_newline=None, density=3,
+                 avoid_known=False):
         self.rng = rng
+        self.avoid_known = avoid_known
         self.mode = mode
         self.nl = newline
         self.comments = comments
@@ -512,6 +529,9 @@ class Layout:
         """trivia between two tokens (either may be None at the file edges)"""
         rng = self.rng
         must = prev is not None and nxt is not None and fuses(prev, nxt)
+        if self.avoid_known and prev is not None and nxt is not None and prev[1] != "istr" and nxt[1] != "istr" \
+                and breaks(prev[0][-1], nxt[0][0]):
+            must = True
         if self.mode == "dense":
             return " " if must else ""
         if self.mode == "plain":
@@ -543,6 +563,8 @@ class Layout:
                 self.gaps.add("space")
         if must and not out:
             out = " "
+        if self.avoid_known and nxt is not None and out.endswith("]") and nxt[0].startswith("]"):
+            out += " "
         # the gap's own first comment must not fuse with a preceding `-`
         if prev is not None and prev[0].endswith("-") and out.startswith("-"):
             out = " " + out
@@ -588,10 +610,12 @@ def plain_statement_layout(toks, rng, newline="\n"):
     return newline.join(out) + newline
 
 
-def program(rng, luau=True, mode="random", newline="\n", comments=True, final_newline=None, markers=None, density=3):
-    g = Gen(rng, luau=luau, markers=markers)
+def program(rng, luau=True, mode="random", newline="\n", comments=True, final_newline=None, markers=None, density=3,
+            avoid_known=False):
+    g = Gen(rng, luau=luau, markers=markers, avoid_known=avoid_known)
     toks = g.program()
-    lay = Layout(rng, mode=mode, newline=newline, comments=comments, final_newline=final_newline, density=density)
+    lay = Layout(rng, mode=mode, newline=newline, comments=comments, final_newline=final_newline, density=density,
+                 avoid_known=avoid_known)
     src = lay.render(toks)
     return src, toks, g.features, lay.gaps
 
